@@ -5,7 +5,7 @@ From Coq Require Import ExtrOcamlBasic.
 From SonicV Require Import Base.Blocks Spec.Ref Spec.Num
   Model.Err Model.Bitmap Model.PrefixXor Model.Bracket Model.Escape Model.SkipStr Model.SkipNum
   Model.Skip Model.Number Model.Inplace Model.Visitor Model.Cas Model.Arc Model.ObjEq Model.Many
-  Model.Promote Model.Pretty Model.SerRoundTrip Model.NodeBudget Model.Latch Model.SkipAll Model.Meta Model.SerAll Model.TablesOk Model.SerVal Model.DomOps Model.Simd.
+  Model.Promote Model.Pretty Model.SerRoundTrip Model.NodeBudget Model.Latch Model.SkipAll Model.Meta Model.SerAll Model.TablesDefs Model.SerVal Model.DomOps Model.Simd.
 Set Extraction KeepSingleton.
 Separate Extraction
   Spec.Ref Spec.Num
@@ -27,7 +27,7 @@ Separate Extraction
   Model.SkipAll.skip_text Model.SkipAll.skip_value
   Model.Meta.pack Model.Meta.unpack_idx Model.Meta.unpack_len
   Model.SerAll.ser_compact Model.SerAll.ser_pretty Model.SerAll.quote_string
-  Model.TablesOk.hex_to_u32 Model.TablesOk.quote_entry
+  Model.TablesDefs.hex_to_u32 Model.TablesDefs.quote_entry
   Model.SerVal.expect Model.SerVal.matches
   Model.DomOps.step Model.DomOps.run
   Model.Simd.mask_eq Model.Simd.mask_le_u Model.Simd.mask_gt_u Model.Simd.mask_le_i Model.Simd.mask_gt_i
